@@ -160,7 +160,8 @@ func (e *HasAttributePredicate) AsFilter(w Writer) error {
 }
 
 func formatAttrName(name string) string {
-	isIdent := true
+	// the empty name is not an identifier: it has to be printed as ""
+	isIdent := name != ""
 	for i, ch := range name {
 		// stolen from scanner.Scanner.isIdentRune
 		// (QF1001): applying De Morgan's law here just makes it more confusing, and
